@@ -189,6 +189,11 @@ class Runner:
                 sm.bind_events_to(ent["target"])
         if op.get("custom_attr"):
             sm.custom_attr = {"n": [tag, 1]}
+        if op.get("bind_model") and ent.get("model") is not None:
+            with warnings.catch_warnings():
+                warnings.simplefilter("ignore")
+                sm.bind_events_to(ent["model"])
+            ent["bound_model"] = True
         sm._sim_tag = tag
         sm._sim_role = "machine"
         if model is None:
@@ -288,6 +293,9 @@ class Runner:
         if style == "bound" and ent.get("target") is not None:
             args = [dec(a) for a in (op.get("args") or [])]
             return getattr(ent["target"], op["event"])(*args, **dec(op.get("kwargs") or {}))
+        if style == "mbound" and ent.get("model") is not None and hasattr(ent["model"], op["event"]):
+            args = [dec(a) for a in (op.get("args") or [])]
+            return getattr(ent["model"], op["event"])(*args, **dec(op.get("kwargs") or {}))
         if style == "mixin" and ent.get("mixin"):
             args = [dec(a) for a in (op.get("args") or [])]
             return getattr(ent["model"], op["event"])(*args, **dec(op.get("kwargs") or {}))
@@ -299,7 +307,7 @@ class Runner:
             if op["event"] not in names:
                 SIM.stats["style_fallback"] = SIM.stats.get("style_fallback", 0) + 1
                 op = dict(op, style="send")
-        if style in ("bound", "mixin"):
+        if style in ("bound", "mixin", "mbound"):
             op = dict(op, style="send")
         return self._trigger(sm, op)
 
